@@ -379,4 +379,39 @@ def eventsOf (c : Option Nat) : Nat → List Stmt → List Ev
   | _, [] => []
   | i, s :: rest => stmtEvAt c i s ++ eventsOf c (i + 1) rest
 
+/-! ### round 5: a nil function given to `WithAcceptable` (finding; fixes/C14-withacceptable-nil.patch) -/
+
+/-- a verdict function whose evaluation may call a nil function value: `none` = that call (a nil-call panic) -/
+abbrev AccFnP := Option (Option Err → Option Bool)
+
+/-- `WithAcceptable(new)` exactly as the pinned code has it, for a possibly nil `new`: installed as it is when
+nothing is installed yet (a nil stays nil: harmless); otherwise the closure `pre(err) || new(err)` — which CALLS
+the nil function whenever `pre` says false -/
+def withAcceptablePinned (cur new : AccFnP) : AccFnP :=
+  match cur with
+  | none => new
+  | some pre => some fun e =>
+    match pre e with
+    | some true => some true
+    | some false => (match new with | some g => g e | none => none)
+    | none => none
+
+/-- with fixes/C14-withacceptable-nil.patch: a nil argument leaves the connection as it is -/
+def withAcceptableFixed (cur new : AccFnP) : AccFnP :=
+  match new with
+  | none => cur
+  | some _ => withAcceptablePinned cur new
+
+def liftFn (g : Option Err → Bool) : AccFnP := some fun e => some (g e)
+def liftAcc (a : AccFn) : AccFnP := a.map fun g e => some (g e)
+
+/-- the breaker wrapper when the verdict function can panic: an admitted request that returned is judged by
+`acc`; if that evaluation calls a nil function the call leaves by that panic — after the request (the whole
+transaction) has run -/
+def brkDoP (acc : Option Err → Option Bool) (req : Result) : Result :=
+  if req.escaped then { req with mark := none }
+  else match acc req.ret with
+    | some m => { req with mark := some m }
+    | none => { req with escaped := true, ret := some (Err.of .panic), mark := none }
+
 end GoZero.C14
